@@ -18,7 +18,9 @@ C->S: one record per mapper (pix_sub_weights, mapping_matrix, unique_mappings, n
   Trace_Mapper.tla: the replayed instances, seeded larger rectangular instances (masks <= 4x4, meshes up to 6x6, sub 1..4) and
   seeded Delaunay instances (6..14 lattice vertices in general position, 20..60 sub-pixel positions inside and outside the
   hull; and hub meshes -- a centre ringed by 13..20 lattice points, so that neighbour lists of high degree are judged) for which
-  the specification states what a valid answer is (any correct triangulation library is accepted)."""
+  the specification states what a valid answer is (any correct triangulation library is accepted).
+History: every mapper carries a non-constant positive adapt image and, for a share of the instances, pixel_signals_from(signal_scale)
+  is called once or twice before / between the four judged reads (action PixelSignals of the machine: nothing judged changes)."""
 import json
 import math
 import zlib
@@ -652,6 +654,8 @@ def run(ctx):
         "trace_only_delaunay": {"n": n_del, "vertices": "6..14 lattice points in general position in (0..8..12)^2", "sub_pixels": "20..60, inside and outside the hull"},
         "trace_only_delaunay_hubs": {"n": n_fan, "vertices": "a centre ringed by 13..20 lattice points + 0..4 others in (0..40)^2, general position, "
                                                               "a vertex of degree >= 13 guaranteed"},
+        "history": "adapt image 0.3 + k|sin| per pixel; pixel_signals_from(signal_scale in {0, 0.5, 1, 2, 3}) once or twice before/between the reads "
+                   "for 30% (exhaustive), 40% (seeded rectangular), 60% (Delaunay) of the mappers",
         "tick_lengths": TAUS, "tick_lengths_delaunay": DEL_TAUS, "rect_jitter_ticks": JIT,
     }
     # ---- the bounded machines
@@ -739,6 +743,9 @@ def run(ctx):
              f"DelSpec: {rd.init_states} (vertex set, simplex set) pairs judged")
     ctx.note(f"{len(recs)} records validated by Trace_Mapper ({kinds}); Delaunay sub-pixels inside the hull: {inside}, outside: {outside}; Delaunay meshes whose largest reported neighbour list has >= 13 entries: "
              f"{sum(1 for d in degs if d >= 13)} (largest {max(degs) if degs else 0}); rejected: {len(rej)}")
+    ctx.note(f"mappers on which pixel_signals_from was evaluated before / between the judged reads: {sum(1 for i in insts if i.get('signals'))} "
+             f"(Delaunay: {sum(1 for i in insts if i.get('signals') and i['kind'] == 'delaunay')}), "
+             f"before the first read: {sum(1 for i in insts if any(s[0] == 0 for s in i.get('signals', [])))}")
     ctx.assumptions = [
         "positions and vertices lie on a tick lattice; one tick is >= 2^-6 scaled units, so the 1e-8 buffer of overlay_grid (< 1e-6 tick) "
         "cannot move a lattice point across a cell boundary (points are >= 1/6 tick away from interior boundaries); bounding boxes are non-degenerate",
